@@ -4060,13 +4060,7 @@ impl BytecodeVM {
                 let result_val = self.get_reg(result);
 
                 let done = if let JsValue::Object(obj_ref) = result_val {
-                    match obj_ref
-                        .borrow()
-                        .get_property(&PropertyKey::String(interp.intern("done")))
-                    {
-                        Some(JsValue::Boolean(b)) => b,
-                        _ => false,
-                    }
+                    interp.iterator_done(&obj_ref.cheap_clone())?
                 } else {
                     true
                 };
@@ -4081,10 +4075,8 @@ impl BytecodeVM {
                 let result_val = self.get_reg(result);
 
                 let value = if let JsValue::Object(obj_ref) = result_val {
-                    obj_ref
-                        .borrow()
-                        .get_property(&PropertyKey::String(interp.intern("value")))
-                        .unwrap_or(JsValue::Undefined)
+                    let Guarded { value, .. } = interp.iterator_value(&obj_ref.cheap_clone())?;
+                    value
                 } else {
                     JsValue::Undefined
                 };
